@@ -67,6 +67,14 @@ def _check(col, text, target, acl, origin):
         col.violation(_classify_print(m, toks, name), f'print(parse(text)) != text for target {name} acl={acl}', dict(wit, got=got))
         if _classify_print(m, toks, name) != KF_OUTSIDE:
             return m
+    # what a sub-model spans is decided by its children, not by what the model says about itself: every child lies inside its
+    # parent's first..last token (M3 on the fresh parse)
+    col.ev()
+    errs = [e for e in walker.check_tree(m) if e[0] in ('child-outside-parent', 'children-overlap', 'first-after-last', 'first-last-exc',
+                                                         'first-last-not-in-store', 'leaf-not-in-store', 'wrong-store')]
+    if errs:
+        col.violation(f'parsed-tree:{errs[0][0]}', f'freshly parsed {name} (acl={acl}): {errs[0][1]}', wit)
+        return m
     off = {}
     o = 0
     for t in toks:
